@@ -170,6 +170,7 @@ var sessPfx = map[string]wire.NLRI{
 	"a":  {AFI: wire.AFIIPv4, Len: 16, Addr: []byte{10, 1}},
 	"b":  {AFI: wire.AFIIPv4, Len: 16, Addr: []byte{10, 2}},
 	"c6": {AFI: wire.AFIIPv6, Len: 48, Addr: []byte{0x20, 0x01, 0x0d, 0xb8, 0, 1}},
+	"d6": {AFI: wire.AFIIPv6, Len: 48, Addr: []byte{0x20, 0x01, 0x0d, 0xb8, 0, 2}},
 	"l":  {AFI: wire.AFIIPv4, Len: 16, Addr: []byte{10, 3}},  // announced with the local AS in its AS_PATH
 	"o1": {AFI: wire.AFIIPv4, Len: 16, Addr: []byte{10, 50}}, // put into the Loc-RIB by another source
 	"o2": {AFI: wire.AFIIPv4, Len: 16, Addr: []byte{10, 51}},
